@@ -190,8 +190,14 @@ fn build_member(idx: usize, n: usize, x: usize, cfg: &Value, picker: &mut Picker
     let mut blindings: Vec<Vec<Scalar>> = Vec::new();
     for j in 0..m {
         let eqb = cfg["equal_blindings"].as_bool().unwrap_or(false);
-        let mut r: Vec<Scalar> =
-            (0..x).map(|k| env::sym_scalar(&format!("r_{}_{}_{}", nidx, j, if eqb { 0 } else { k }), "blinding")).collect();
+        // blindings_count < x: a witness of LOWER extension degree than the statement whose short vectors do reproduce the commitments
+        let nb = cfg["blindings_count"].as_u64().map(|v| v as usize).unwrap_or(x);
+        let mut r: Vec<Scalar> = if cfg["zero_blindings"].as_bool().unwrap_or(false) {
+            // the all-zero mask: with value 0 the commitment is the identity element (a valid witness)
+            vec![Scalar::ZERO; nb]
+        } else {
+            (0..nb).map(|k| env::sym_scalar(&format!("r_{}_{}_{}", nidx, j, if eqb { 0 } else { k }), "blinding")).collect()
+        };
         if cfg["witness_shift"].as_u64() == Some(j as u64) && x >= 2 {
             // another opening of the same commitment under degenerate_g: (r0 + 2, r1 - 1)
             r[0] = r[0] + Scalar::from(2u8);
@@ -547,7 +553,9 @@ fn run_zeroize(cfg: &Value) -> Value {
                 openings.push(CommitmentOpening::new(marker_u64, r));
             }
             let seed = if seeded { Some(marker_scalar()) } else { None };
-            let st = RangeStatement::init(params, commitments, vec![None; m], seed).unwrap();
+            // promise: exercises the minimum-value offset path of the prover (value - promise)
+            let promises: Vec<Option<u64>> = (0..m).map(|j| if cfg["promise"].as_bool().unwrap_or(false) && j == 0 { Some(3) } else { None }).collect();
+            let st = RangeStatement::init(params, commitments, promises, seed).unwrap();
             let w = RangeWitness::init(openings).unwrap();
             if what == "statement" {
                 // statements living on the heap (a Vec handed to verify_batch, a Box): the inline seed must be cleared before release
